@@ -4,11 +4,13 @@
 static int nv;
 static struct wvar vdef[W_MAXVAR];
 
+static int g_need_all;
 static void build(int n, const struct wvar *vars, int cap)
 {
         struct wcmd *c = sw_table(1);
         strcpy(c[0].name, "+R");
         c[0].nvar = (uint8_t)n;
+        c[0].need_all = (uint8_t)g_need_all;
         for (int i = 0; i < n; i++) c[0].var[i] = vars[i];
         nv = n; memcpy(vdef, vars, sizeof(struct wvar) * (size_t)n);
         sw_caps(cap, 0);
@@ -240,6 +242,9 @@ static int mixes(int shard, int nshards)
                         struct wvar vars[3] = {mkvar(T[a], SZ[a]), mkvar(T[b], SZ[b]), mkvar(T[c], SZ[c])};
                         int ro = combo / 27 - 1;
                         if (ro >= 0) vars[ro].access = CAT_VAR_ACCESS_READ_ONLY;
+                        /* need_all_vars on every second combination; two trailing read-only variables on some */
+                        g_need_all = (combo ^ idx) & 1;
+                        if (ro == 2 && (combo & 2)) vars[1].access = CAT_VAR_ACCESS_READ_ONLY;
                         uint8_t vb[3][8];
                         uint8_t *vals[3] = {vb[0], vb[1], vb[2]};
                         int k = combo % 27;
